@@ -83,6 +83,10 @@ def check_tree_pairs(spec, hists, acc):
                        ("a + a.zero()", o, o + o.zero()), ("copy() of copy()", o.copy(), o.copy().copy())]
                 if not any(n.get("tr") for _, _, n in S.node_ids(spec)):
                     fam.append(("a * 1", o, o * 1))
+                if any(n["t"] in ("Label", "UntypedLabel") for _, _, n in S.node_ids(spec)):
+                    from .c07 import reordered
+
+                    fam.append(("the same tree with members named in the opposite order", o, core.mk(reordered(spec), hists[i])))
                 im = hg.Factory.fromJson(docs[i])
                 fam.append(("JSON reload vs JSON reload", im, hg.Factory.fromJson(docs[i])))
                 fam.append(("JSON reload vs its copy()", im, im.copy()))
@@ -114,9 +118,16 @@ def check_rounding_pair(spec, ha, hb):
     try:
         a, b = core.mk(spec, ha), core.mk(spec, hb)
         prev = None
-        for rel, ab in ((0.0, 0.0), (1e-12, 0.0), (0.0, 1e-12), (1e-6, 1e-6)):
+        for step, (rel, ab) in enumerate(((0.0, 0.0), (1e-12, 0.0), (0.0, 1e-12), (1e-6, 1e-6), (0.0, 0.0))):
             set_tol(rel, ab)
             eq, qe, ne, en = a == b, b == a, a != b, b != a
+            if step == 4:
+                # back at zero tolerance: the verdict is a function of the two aggregators and the tolerance in force
+                if bool(eq) != prev:
+                    out.append(FW.violation(PROP, "rounding", type(a).__name__ + ".__eq__",
+                                            "verdict-at-zero-tolerance-depends-on-earlier-comparisons", args,
+                                            {"first": prev, "after_comparing_under_tolerances": bool(eq)}))
+                break
             if bool(eq) != bool(qe):
                 out.append(FW.violation(PROP, "rounding", type(a).__name__ + ".__eq__", "asymmetric(rel=%g,abs=%g)" % (rel, ab), args, {}))
             if bool(ne) == bool(eq) or bool(en) == bool(qe):
@@ -128,6 +139,27 @@ def check_rounding_pair(spec, ha, hb):
                 out.append(FW.violation(PROP, "rounding", type(a).__name__ + ".__eq__", "tolerance-narrows", args, {}))
     except Exception as e:
         out.append(core.v_exc(PROP, "rounding", "== raised", e, args))
+    finally:
+        set_tol(0.0, 0.0)
+    return out
+
+
+def check_tolerant_first(spec, ha, hb):
+    """The same kind of pair, but compared under a positive tolerance *first* and at zero tolerance afterwards: at zero
+    tolerance a == b still implies identical content (the verdict follows the tolerance in force when it is made)."""
+    args = {"spec": spec, "ha": core.show_evs(ha), "hb": core.show_evs(hb)}
+    out = []
+    try:
+        a, b = core.mk(spec, ha), core.mk(spec, hb)
+        na, nb = C.norm(a.toJson(), drop_names=True), C.norm(b.toJson(), drop_names=True)
+        set_tol(1e-6, 1e-6)
+        wide = bool(a == b)
+        set_tol(0.0, 0.0)
+        for v in eq_checks(a, b, na, nb, args, "tolerant-first"):
+            v["detail"]["equal_under_tolerance_1e-6_before"] = wide
+            out.append(v)
+    except Exception as e:
+        out.append(core.v_exc(PROP, "tolerant-first", "== raised", e, args))
     finally:
         set_tol(0.0, 0.0)
     return out
@@ -180,6 +212,9 @@ def _tree(task):
         for ha, hb in (([(r1, 0.1), (r1, 0.2)], [(r1, 0.3)]), ([(r1, 0.1), (r2, 0.2)], [(r2, 0.2), (r1, 0.1)]),
                        ([(r1, 0.1), (r1, 0.2), (r2, 0.3)], [(r2, 0.3), (r1, 0.3)])):
             acc.add(check_rounding_pair(spec, ha, hb))
+            acc.n("rounding_pairs")
+        for ha, hb in (([(r1, 0.1), (r1, 0.7)], [(r1, 0.8)]), ([(r1, 0.7), (r2, 0.1), (r1, 0.1)], [(r2, 0.1), (r1, 0.8)])):
+            acc.add(check_tolerant_first(spec, ha, hb))
             acc.n("rounding_pairs")
     nbs = NB.valid_neighbours(spec)
     few = [[]] + [h for h in hists if len(h) == 1][:3] + [h for h in hists if len(h) == 2][:2]
@@ -241,6 +276,8 @@ def run(tier, seed):
 
 def replay(driver, args):
     spec = args["spec"]
+    if driver == "tolerant-first":
+        return check_tolerant_first(spec, core.unshow_evs(args["ha"]), core.unshow_evs(args["hb"]))
     if driver == "rounding":
         return check_rounding_pair(spec, core.unshow_evs(args["ha"]), core.unshow_evs(args["hb"]))
     if driver == "neighbour":
